@@ -179,7 +179,7 @@ fn compound(src: &mut Src, st: &mut Stats, _env: &Env) -> CaseResult {
         Some((d, _)) => d.clone(),
         None => gen_doc(src, &DocOpts::default()),
     };
-    if near.is_none() && src.chance(8) {
+    if near.is_none() && src.chance(20) {
         crate::gen_doc::scale_some_array(&mut doc, src, 2500);
         st.class("scaled-document");
     }
